@@ -36,6 +36,13 @@ TransportOk(e) ==
 (* the command during which it is read): same output, same registers, same exit status                                              *)
 XportOk(e) == e.arg = e.stdin
 
+(* GETC fed from a real terminal: one value per typed byte, an ASCII byte as itself, any other as itself or U+FFFD (D7) *)
+TtyInOk(e) ==
+  /\ e.code = 0
+  /\ Len(e.got) = Len(e.typed)
+  /\ \A i \in 1 .. Len(e.typed) : e.got[i] \in (IF e.typed[i] < 128 THEN {e.typed[i]} ELSE {e.typed[i], 65533})
+(* an object file delivered through a named pipe loads and runs exactly like the same bytes in a regular file *)
+FifoLoadOk(e) == e.file = e.fifo
 (* ---- C06: compile output, loader ---- *)
 CompileOk(e) ==
   IF Accepts(e.ast, e.stack)
@@ -106,6 +113,11 @@ FeatValid(v) ==
   IN  /\ \A i \in 1 .. Len(items) : items[i] = << "s", "t", "a", "c", "k" >>
       /\ Len(items) <= 1
 FeatArgOk(e) == IF FeatValid(e.value) THEN e.code = 0 ELSE e.code = 2
+(* a program executing PUSH/POP words: runs to HALT exactly when -f names the extension (in any accepted spelling) *)
+HasStackItem(v) == \E i \in 1 .. Len(SplitComma(v, << >>, << >>)) : SplitComma(v, << >>, << >>)[i] = << "s", "t", "a", "c", "k" >>
+FeatRunOk(e) == IF ~FeatValid(e.value) THEN e.code = 2
+                ELSE IF HasStackItem(e.value) THEN e.code = 0 ELSE e.code = 1
+
 
 (* ---- sub-command / file-extension dispatch of `lace run|debug|<bare path>` (beyond the listed   *)
 (* properties; src/main.rs run()): .asm is assembled, .lc3/.obj loaded, anything else refused;    *)
@@ -123,6 +135,9 @@ WatchOk(e) == e.seen \in {"none", IF e.valid THEN "success" ELSE "error"}
 Explains(e) ==
   CASE e.ev = "transport" -> TransportOk(e)
     [] e.ev = "xport"     -> XportOk(e)
+    [] e.ev = "ttyin"     -> TtyInOk(e)
+    [] e.ev = "fifoload"  -> FifoLoadOk(e)
+    [] e.ev = "featrun"   -> FeatRunOk(e)
     [] e.ev = "watch"     -> WatchOk(e)
     [] e.ev = "dispatch"  -> DispatchOk(e)
     [] e.ev = "compile"   -> CompileOk(e)
